@@ -274,6 +274,189 @@ pub fn generate(check: &str, tier: &str, seed: u64) -> Scenario {
                 body: Body::Store(StoreScn { cfg, keys, threads: vec![ops], fault: None, fault_reads: thorough && cr.one_in(2), max_crash_points: if thorough { 0 } else { 40 }, extra: 0 }),
             }
         }
+        "C04" => {
+            let mut cfg = store_cfg(&mut cr);
+            cfg.max_file_size = *cr.pick(&[60, 300, 1000, 9000, 20_000, 1 << 20]);
+            cfg.pool = *cr.pick(&[1, 1, 2, 2, 4]);
+            cfg.cache = *cr.pick(&[0, 1, 2, 256]);
+            let nkeys = cr.range(2, 4) as usize;
+            let keys = pick_keys(&mut cr, nkeys);
+            let big = *cr.pick(&[10, 40, 70]);
+            let writers = cr.range(1, 3) as usize;
+            let readers = cr.range(1, 3) as usize;
+            let mut threads = Vec::new();
+            for _ in 0..writers {
+                let n = r.range(3, 9) as usize;
+                threads.push(gen_ops(&mut r, n, nkeys, &OpMix { set: 60, get: 10, del: 25, merge: 0, reopen: 0, retune: 0, pass: 0 }, big, &mut tag));
+            }
+            for _ in 0..readers {
+                let n = r.range(3, 10) as usize;
+                threads.push(gen_ops(&mut r, n, nkeys, &OpMix { set: 0, get: 100, del: 0, merge: 0, reopen: 0, retune: 0, pass: 0 }, big, &mut tag));
+            }
+            match cr.below(3) {
+                0 => {}
+                1 => {
+                    let n = r.range(1, 4) as usize;
+                    threads.push((0..n).map(|_| Op::Merge).collect());
+                }
+                _ => {
+                    cfg.merge_always = true;
+                    cfg.check_interval_ms = 1;
+                    cfg.jitter = 0.5;
+                    cfg.trig_frag = 0.0;
+                    cfg.trig_dead = 0;
+                }
+            }
+            let mut sim = SimParams::default();
+            sim.num_cpus = *cr.pick(&[1, 2, 4]);
+            sim.strat = match cr.below(5) {
+                0 => Strat::Random(20),
+                1 => Strat::Random(100),
+                2 => Strat::Random(400),
+                3 => Strat::Pct(*cr.pick(&[1, 2, 3]), 400),
+                _ => Strat::Pct(*cr.pick(&[2, 5]), 1500),
+            };
+            if cr.one_in(2) {
+                sim.latency_pm = *cr.pick(&[50, 200]);
+                sim.max_latency_us = *cr.pick(&[10, 3000]);
+                sim.short_write_pm = *cr.pick(&[0, 100]);
+            }
+            Scenario { check: check.to_string(), seed, sim, body: Body::Store(StoreScn { cfg, keys, threads, fault: None, fault_reads: false, max_crash_points: 0, extra: 0 }) }
+        }
+        "C18" => {
+            let mut cfg = store_cfg(&mut cr);
+            cfg.max_file_size = *cr.pick(&[60, 300, 1000, 1 << 20]);
+            cfg.check_interval_ms = *cr.pick(&[10, 100, 1000, 18_000, 60_000, 3_600_000]);
+            cfg.jitter = *cr.pick(&[0.0, 0.1, 0.3, 0.5, 1.0]);
+            cfg.sync = match cr.below(3) {
+                0 => SyncCfg::None,
+                _ => SyncCfg::IntervalMs(*cr.pick(&[5, 50, 1000, 30_000])),
+            };
+            // thresholds select everything so a triggered merge always has work
+            cfg.thr_small = u64::MAX;
+            let nkeys = cr.range(2, 6) as usize;
+            let keys = pick_keys(&mut cr, nkeys);
+            let n = r.range(2, 14) as usize;
+            let ops = gen_ops(&mut r, n, nkeys, &OpMix { set: 55, get: 0, del: 30, merge: 0, reopen: 0, retune: 0, pass: 0 }, 5, &mut tag);
+            let mode = cr.below(7);
+            let never = cr.one_in(5);
+            let mut sim = SimParams::default();
+            sim.num_cpus = 1;
+            sim.jitter_extreme_pm = *cr.pick(&[0, 300, 1000]);
+            sim.strat = cr.pick(&[Strat::Fifo, Strat::Random(100)]).clone();
+            // sync intervals must stay tractable relative to the observed span
+            if let SyncCfg::IntervalMs(d) = cfg.sync {
+                let span_ms = 3.0 * cfg.check_interval_ms as f64 * (1.0 + cfg.jitter);
+                if span_ms / d as f64 > 3000.0 {
+                    cfg.sync = SyncCfg::IntervalMs((span_ms / 1000.0) as u64 + 1);
+                }
+            }
+            Scenario { check: check.to_string(), seed, sim, body: Body::Store(StoreScn { cfg, keys, threads: vec![ops], fault: None, fault_reads: false, max_crash_points: 0, extra: mode | if never { 0x10 } else { 0 } }) }
+        }
+        "C17" => {
+            let mut cfg = store_cfg(&mut cr);
+            cfg.max_file_size = *cr.pick(&[60, 300, 1000, 1 << 20]);
+            cfg.merge_always = !cr.one_in(4);
+            cfg.check_interval_ms = *cr.pick(&[10, 10, 100, 18_000, 3_600_000]);
+            cfg.jitter = *cr.pick(&[0.0, 0.3, 1.0]);
+            cfg.trig_frag = *cr.pick(&[0.0, 0.0, 0.3]);
+            cfg.trig_dead = *cr.pick(&[0, 0, 100, u64::MAX]);
+            cfg.thr_small = u64::MAX;
+            cfg.sync = match cr.below(3) {
+                0 => SyncCfg::None,
+                1 => SyncCfg::IntervalMs(*cr.pick(&[5, 50, 60_000])),
+                _ => SyncCfg::Always,
+            };
+            // keep the number of sync ticks per check interval tractable
+            if let SyncCfg::IntervalMs(d) = cfg.sync {
+                if cfg.check_interval_ms / d > 50 {
+                    cfg.sync = SyncCfg::IntervalMs(cfg.check_interval_ms / 20 + 1);
+                }
+            }
+            let nthreads = 1 + cr.below(3) as usize;
+            let nkeys = nthreads * cr.range(2, 3) as usize;
+            let keys = pick_keys(&mut cr, nkeys);
+            let iv = cfg.check_interval_ms;
+            let mut main: Vec<Op> = Vec::new();
+            let own = |t: usize, r: &mut Rng| -> usize { t + nthreads * r.usize_below(nkeys / nthreads) };
+            let mut push_ops = |main: &mut Vec<Op>, r: &mut Rng, n: usize, tag: &mut u32| {
+                for _ in 0..n {
+                    let k = own(0, r);
+                    match r.below(10) {
+                        0..=5 => {
+                            *tag += 1;
+                            main.push(Op::Set(k, Val { tag: *tag, len: val_len(r, 5) }));
+                        }
+                        6..=7 => main.push(Op::Del(k)),
+                        _ => main.push(Op::Get(k)),
+                    }
+                }
+            };
+            let cycles = r.range(1, 5);
+            for c in 0..cycles {
+                let n = r.range(1, 6) as usize;
+                push_ops(&mut main, &mut r, n, &mut tag);
+                // land the drop at a chosen instant relative to the worker's timers
+                match r.below(4) {
+                    0 => {}
+                    1 => main.push(Op::Pass(iv / 2 + 1)),
+                    2 => main.push(Op::Pass(iv)),
+                    _ => main.push(Op::Pass(iv + iv / 3 + 1)),
+                }
+                if iv <= 100 && r.one_in(2) {
+                    main.push(Op::Pass(r.range(1, 3 * iv)));
+                }
+                main.push(Op::Close);
+                // use through the stale handle
+                for _ in 0..r.below(4) {
+                    let k = own(0, &mut r);
+                    match r.below(5) {
+                        0 => {
+                            tag += 1;
+                            main.push(Op::Set(k, Val { tag, len: 9 }));
+                        }
+                        1 => main.push(Op::Del(k)),
+                        2 => main.push(Op::Get(k)),
+                        3 => main.push(Op::Merge),
+                        _ => main.push(Op::Sync),
+                    }
+                }
+                if c + 1 < cycles || r.one_in(2) {
+                    main.push(Op::Reopen(r.one_in(3)));
+                }
+            }
+            let mut threads = vec![main];
+            for t in 1..nthreads {
+                let n = r.range(2, 8) as usize;
+                let mut ops = Vec::new();
+                for _ in 0..n {
+                    let k = t + nthreads * r.usize_below(nkeys / nthreads);
+                    match r.below(10) {
+                        0..=5 => {
+                            tag += 1;
+                            ops.push(Op::Set(k, Val { tag, len: val_len(&mut r, 5) }));
+                        }
+                        6..=7 => ops.push(Op::Del(k)),
+                        8 => ops.push(Op::Get(k)),
+                        _ => ops.push(Op::Pass(r.range(1, iv.min(50) + 1))),
+                    }
+                }
+                threads.push(ops);
+            }
+            let mut sim = SimParams::default();
+            sim.num_cpus = *cr.pick(&[1, 2]);
+            sim.strat = match cr.below(4) {
+                0 => Strat::Fifo,
+                1 => Strat::Random(50),
+                2 => Strat::Random(300),
+                _ => Strat::Pct(*cr.pick(&[1, 2, 3]), 600),
+            };
+            if cr.one_in(2) {
+                sim.latency_pm = *cr.pick(&[100, 500]);
+                sim.max_latency_us = *cr.pick(&[100, 20_000]);
+            }
+            Scenario { check: check.to_string(), seed, sim, body: Body::Store(StoreScn { cfg, keys, threads, fault: None, fault_reads: false, max_crash_points: 0, extra: 0 }) }
+        }
         other => panic!("no generator for check {}", other),
     }
 }
